@@ -95,3 +95,8 @@ reg('C01', 'model_checking', 'G (type-graph explorer, compiler as transition fun
     'The graph whose states are (wrapper, C++ type) is explored with ~170 (quick) / ~330 (thorough) forms per state - every operator with every operand class, indexing, dereference, address-of, RLBox casts, opaque conversion and 43 conversion contexts - one real compilation per edge with RLBox\'s compile-time checks ON. A plain type may be reached only through a named unwrapper or a null test of a tainted pointer; comparisons involving sandbox memory must be exactly hints; hints are not verifiable; tainted_opaque has no operation.',
     'Finite grammar of forms; explicit type punning is outside the alphabet; g++ primary, clang++ repeats the conversion contexts in the thorough tier.',
     'DESIGN.md section 3, C01')
+
+reg('C02', 'model_checking', 'G + X (program grid + exhaustive address enumeration)', 'exhaustive grid of sink x source programs judged by the real compiler (with positive controls) + exhaustive address sweep of the run-time entry points',
+    'Every store / initialisation / call / registration shape of the grid (raw pointers, const pointers, raw function pointers, arrays of raw pointers, wrappers of another sandbox type, plain structs, lambdas, functors, 18 malformed callback signatures) is compiled against the real headers with compile checks ON and must be rejected, while positive controls of the same shapes must compile; assign_raw_pointer (both wrappers) and UNSAFE_accept_pointer are executed for every address of the sandbox region +-4 KiB, null, the other live instance and application memory in mask and registry modes.',
+    'Finite shape grammar; g++ (clang++ repeated in the thorough tier).',
+    'DESIGN.md section 3, C02')
